@@ -15,6 +15,7 @@ import z3
 from .interp import Interp, PyRaise, Infeasible, Obligation, zbool, simp
 from .values import Unsupported, SObj, SStr, SSet
 from .contract import ContractInfo, SymFactory, ConcreteFactory, Registry
+from .source import ClassInfo
 from . import smt
 
 MAX_PATHS = 6000
@@ -62,8 +63,14 @@ def snapshot(v, memo=None):
         return tuple(snapshot(x, memo) for x in v)
     if isinstance(v, SSet):
         return v.copy()
+    from .values import XList
+    if isinstance(v, XList):
+        r = XList(v.base, v.items, v.prestate)
+        memo[id(v)] = r
+        return r
     if isinstance(v, SObj):
         r = SObj(v.cls, False)
+        r.orig = getattr(v, 'orig', v)      # the snapshot of an object is identical (`is`) to the object it was taken from
         memo[id(v)] = r
         for k, x in v.fields.items():
             r.fields[k] = snapshot(x, memo)
@@ -104,7 +111,8 @@ def run_one(I: Interp, reg: Registry, ci: ContractInfo, f, known_excludes=()):
         I.assume(simp(z3.Not(zbool(I.truth(reg.call_clause(I, ci, 'known_' + tag, vals))))))
     I.oblige('cover', 'requires', True)
     old = snapshot(vals)
-    allowed = resolve_paths(vals, getattr(ci.pycls, 'modifies', ()))
+    mods = getattr(ci.pycls, 'modifies', ())
+    allowed = resolve_paths(vals, mods if not callable(mods) else ())
     call_kwargs = {k: v for k, v in vals.items() if not k.startswith('_')}
     I.writes = []
     outcome, result, exc = 'normal', None, None
@@ -125,14 +133,31 @@ def run_one(I: Interp, reg: Registry, ci: ContractInfo, f, known_excludes=()):
         for exc_name, cond in table.items():
             I.oblige('exc', f'no-{exc_name}', simp(z3.Not(zbool(I.truth(cond)))), note='normal return although the contract demands this exception')
         for name in ci.clauses:
-            I.oblige('post', name[5:], I.truth(reg.call_clause(I, ci, name, values)))
+            try:
+                goal = I.truth(reg.call_clause(I, ci, name, values))
+            except PyRaise as e:
+                # the clause itself raised (e.g. an index that the specification assumes to be in range): it does not hold
+                I.oblige('post', name[5:], False, note=f'the clause raised {e.exc_name}')
+                continue
+            I.oblige('post', name[5:], goal)
     else:
         if exc.exc_name in table:
             I.oblige('exc', exc.exc_name, I.truth(table[exc.exc_name]), note=f'raised at {exc.func}:{exc.line}')
         else:
             I.oblige('safe', f'no-{exc.exc_name}', False, note=f'uncaught {exc.exc_name} raised at {exc.func}:{exc.line}')
+    if ci.kind == 'function' and ci.has('modifies_objs'):
+        # the objects that may be written, as an expression over the parameters (evaluated after the call; identity is stable)
+        try:
+            nw = len(I.writes)
+            for o in reg.call_clause(I, ci, 'modifies_objs', values):
+                allowed.add((id(o), None) if not isinstance(o, str) else (o, None))
+            del I.writes[nw:]
+        except (PyRaise, Unsupported):
+            pass
     for (line, func, what, fresh, obj) in (I.writes if ci.kind == 'function' else []):
         if fresh:
+            continue
+        if isinstance(obj, ClassInfo) and (f'{obj.name}{what}', None) in allowed:
             continue
         attr = what[1:] if what.startswith('.') else None
         if (id(obj), attr) in allowed or (id(obj), None) in allowed:
@@ -492,7 +517,7 @@ def native_check(ci: ContractInfo, g: ConcreteFactory):
             failed.append(f'safe:no-{en}')
     if ci.kind == 'function':
         allowed = getattr(ci.pycls, 'modifies', ())
-        if not allowed and deep_state(vals) != before:
+        if not allowed and not ci.has('modifies_objs') and deep_state(vals) != before:
             failed.append('frame:*')
     return failed
 
